@@ -57,6 +57,15 @@ Theorem C02_sprintf_leaf_noninterference : forall fuel env f a1 a2 o1 o2,
 Proof. exact sprintf_leaf_noninterference. Qed.
 Print Assumptions C02_sprintf_leaf_noninterference.
 
+Theorem C02_sprint_leaf_noninterference : forall fuel env a1 a2 o1 o2,
+  osane (orc env) -> Forall2 lrel a1 a2 ->
+  sprint fuel env a1 = ROk o1 -> sprint fuel env a2 = ROk o2 ->
+  forall ops1 ops2, o_log o1 = ops1 ++ [OTake] -> o_log o2 = ops2 ++ [OTake] ->
+  rawok ops1 = true -> ptail_ok_from init ops1 = true -> ptail_ok_from init ops2 = true ->
+  redact_b (o_bytes o1) = redact_b (o_bytes o2).
+Proof. exact sprint_leaf_noninterference. Qed.
+Print Assumptions C02_sprint_leaf_noninterference.
+
 (* Non-vacuity: Sprintf("u=%s id=%+08d %x|%q %v!", ...) on two instantiations; the hypotheses
    hold, the outputs differ, their redactions agree *)
 Definition c02_fmt : bytes := [117;61;37;115;32;105;100;61;37;43;48;56;100;32;37;120;124;37;113;32;37;118;33]%N.
